@@ -1248,6 +1248,7 @@ def _markers(res: list[int]) -> set[int]:
     return out
 
 
+@U.bounded('hang: no result within the time limit')
 def eof_oracle(s: str, bits: int) -> str | None:
     from srctools.tokenizer import Token, Tokenizer, TokenSyntaxError
     tk = Tokenizer(s, None, **U.opts_of_bits(bits))
@@ -1385,6 +1386,7 @@ def report_tok(ck: Ck, kind: str, s: str, bits: int, cs: list[str] | None) -> No
 
 
 
+@U.bounded([])
 def _plain_stream(s: str, bits: int) -> list:
     """Tokens of a fresh tokenizer by plain calls, up to EOF; a final ('ERR', message, line) if it raises."""
     from srctools.tokenizer import Token, Tokenizer, TokenSyntaxError
@@ -1535,8 +1537,8 @@ def search(ck: Ck, escalate: bool) -> None:
                              {'kind': 'kvparse-chunks', 'text': [ord(c) for c in small], 'kw': kw})
                 break
     basetok_search(ck, big)
-    errtext_oracle(ck)
-    premade_oracle(ck)
+    U.stage_bounded(ck, "error-text-oracle", errtext_oracle, ck)
+    U.stage_bounded(ck, 'premade-tokenizer-oracle', premade_oracle, ck)
     source_kind_oracle(ck)
     ck.sample({'oracle_example': {'text': 'a\r\n/*x*/b', 'chunks': ['a\r', '', '\n/*x*', '/b'], 'check': 'same trace as the single string'}})
 
